@@ -135,14 +135,19 @@ def judge_item(item, text, tokens, indents, out, traces):
         # the public function is the same pure function of (tree, options), whatever was printed before with other options
         try:
             from py_gql.lang import print_ast
-            f1 = print_ast(doc, indent=ind)
-            nd1 = print_ast(doc, indent=ind, include_descriptions=False)
+            pnd = ASTPrinter(indent=ind, include_descriptions=False)(doc)
+            if len(text) % 2:
+                f1 = print_ast(doc, indent=ind)
+                nd1 = print_ast(doc, indent=ind, include_descriptions=False)
+            else:
+                nd1 = print_ast(doc, indent=ind, include_descriptions=False)
+                f1 = print_ast(doc, indent=ind)
             f2 = print_ast(doc, indent=ind)
             nd2 = print_ast(doc, indent=ind, include_descriptions=False)
         except Exception as e:
             out.setdefault(("C03", "print/print_ast-raises/%s/%s" % (type(e).__name__, feats)), ["print_ast raises on a parser-produced tree", dict(w, error=repr(e))])
             continue
-        if f1 != p1 or f2 != p1 or nd1 != nd2:
+        if f1 != p1 or f2 != p1 or nd1 != nd2 or nd1 != pnd:
             out.setdefault(("C03", "print/print_ast-depends-on-earlier-calls/%s" % ("default" if (f1 != p1 or f2 != p1) else "no-descriptions")),
                            ["print_ast(tree, options) differs from the printer's text for the same options after a call with other options",
                             dict(w, first=f1, after_other_options=f2)])
